@@ -3,7 +3,7 @@ Vers = {0,1,2,3,4,5,6,7,8,9,10,11,12,13,14,15,16}
 Lens = {2,3,5,6,20,32,40}
 InvVers = {0,1,16,17,31}
 InvLens = {0,1,2,20,21,32,40,41}
-SubKinds = {1}
+SubKinds = {0,1}
 EmitRows = TRUE
 Deviation = "none"
 INIT Init
